@@ -8,14 +8,14 @@ open AsciiStr
 namespace Style
 
 /-- What the loop of `parse` keeps true of its local variables. -/
-structure StOk (v : Variant) (st : ParseState) : Prop where
+structure StOk (v : StyleVariant) (st : ParseState) : Prop where
   color : ∀ w, st.color = some w → (∀ c ∈ w, isSpace c = false) ∧ lower w = w ∧ ∃ c, Color.parse v w = .ok c
   bgcolor : ∀ w, st.bgcolor = some w → (∀ c ∈ w, isSpace c = false) ∧ ∃ c, Color.parse v w = .ok c
   link : ∀ l, st.link = some l → l ≠ [] ∧ ∀ c ∈ l, isSpace c = false
 
-theorem stOk_init (v : Variant) : StOk v {} := ⟨by simp, by simp, by simp⟩
+theorem stOk_init (v : StyleVariant) : StOk v {} := ⟨by simp, by simp, by simp⟩
 
-theorem parseLoop_stOk {v : Variant} (ws : List (List Char)) (st st' : ParseState)
+theorem parseLoop_stOk {v : StyleVariant} (ws : List (List Char)) (st st' : ParseState)
     (hws : ∀ w ∈ ws, w ≠ [] ∧ ∀ c ∈ w, isSpace c = false) (hst : StOk v st)
     (h : parseLoop v ws st = .ok st') : StOk v st' := by
   fun_induction parseLoop v ws st with
@@ -44,13 +44,13 @@ theorem parseLoop_stOk {v : Variant} (ws : List (List Char)) (st st' : ParseStat
     exact ⟨lower_noSpace (hws ow (by simp)).2, lower_idem ow, a, hp⟩
   | _ => cases h
 
-theorem wf_null (v : Variant) : wf v Style.null = true := by
+theorem wf_null (v : StyleVariant) : wf v Style.null = true := by
   simp [wf, Style.null, wfLink]
 
 theorem str_null : str Style.null = render Style.null := by decide
 
 /-- **Every style `parse` returns is well-formed** (and its `str()` is what `__str__` computes). -/
-theorem parse_wf {v : Variant} {d : List Char} {s : Style} (h : parse v d = .ok s) :
+theorem parse_wf {v : StyleVariant} {d : List Char} {s : Style} (h : parse v d = .ok s) :
     wf v s = true ∧ str s = render s := by
   rcases parse_ok h with rfl | ⟨st, hloop, hinit⟩
   · exact ⟨wf_null v, str_null⟩
@@ -102,14 +102,14 @@ theorem render_eq_of_eq {a b : Style} (h : eq a b = true) : render a = render b 
   obtain ⟨h1, h2, h3, h4, h5⟩ := eq_iff.mp h
   exact render_congr h1 h2 h4 h3 h5
 
-theorem wf_congr {v : Variant} {a b : Style} (h : eq a b = true) : wf v a = wf v b := by
+theorem wf_congr {v : StyleVariant} {a b : Style} (h : eq a b = true) : wf v a = wf v b := by
   obtain ⟨h1, h2, h3, h4, h5⟩ := eq_iff.mp h
   simp [wf, h1, h2, h3, h4, h5]
 
 /-! ### successful parses do not depend on the code variant -/
 
 
-theorem parseLoop_ok_indep {v v' : Variant} (ws : List (List Char)) (st st' : ParseState)
+theorem parseLoop_ok_indep {v v' : StyleVariant} (ws : List (List Char)) (st st' : ParseState)
     (h : parseLoop v ws st = .ok st') : parseLoop v' ws st = .ok st' := by
   fun_induction parseLoop v ws st with
   | case1 st => exact h
@@ -150,7 +150,7 @@ theorem parseLoop_ok_indep {v v' : Variant} (ws : List (List Char)) (st st' : Pa
     exact ih h
   | _ => cases h
 
-theorem init_ok_indep {v v' : Variant} {c b kw l s} (h : init v c b kw l = .ok s) : init v' c b kw l = .ok s := by
+theorem init_ok_indep {v v' : StyleVariant} {c b kw l s} (h : init v c b kw l = .ok s) : init v' c b kw l = .ok s := by
   obtain ⟨c', b', rfl, hcn, hbn, hcs, hbs⟩ := init_ok h
   have mk : ∀ x y, makeColor v x = .ok y → makeColor v' x = .ok y := by
     intro x y hx
@@ -176,7 +176,7 @@ theorem init_ok_indep {v v' : Variant} {c b kw l s} (h : init v c b kw l = .ok s
 
 /-- A successful `Style.parse` does not depend on the code variant (the variants differ in error
 kinds, stored hashes and the `update_link` cache only). -/
-theorem parse_ok_indep {v v' : Variant} {d : List Char} {s : Style} (h : parse v d = .ok s) :
+theorem parse_ok_indep {v v' : StyleVariant} {d : List Char} {s : Style} (h : parse v d = .ok s) :
     parse v' d = .ok s := by
   unfold parse at h ⊢
   split at h
